@@ -419,6 +419,10 @@ def main():
             case = json.load(open(a.replay))
             want = case.get("expect_sig")
             v = run_case(bdir, case, outdir, "replay")
+            tries = 1
+            while want == "race" and tries < 5 and v.get("class") != "violation":
+                v = run_case(bdir, case, outdir, "replay%d" % tries)  # see the note on race verdicts in main()
+                tries += 1
             print(json.dumps(v, indent=1)[:6000])
             if v.get("class") == "violation":
                 print("VIOLATION property=%s replay=%s" % (case["property"], os.path.abspath(a.replay)))
@@ -482,6 +486,13 @@ def main():
             case = d["case"]
             # generated cases carry no body when they come from a death; materialise by running once
             confirm = run_case(bdir, case, outdir, "confirm0")
+            tries = 1
+            # A race verdict can depend on happens-before edges that uninstrumented dependency code
+            # (database/sql's pool mutexes) creates while a task woken outside the scheduler's control
+            # runs up to its first statement; such a case is replayed up to five times.
+            while sig == "race" and tries < 5 and not (confirm.get("class") == "violation" and confirm.get("sig") == sig):
+                confirm = run_case(bdir, case, outdir, "confirm0r%d" % tries)
+                tries += 1
             if not (confirm.get("class") == "violation" and confirm.get("sig") == sig):
                 print("first replay of run %s: %s" % (case.get("index"), json.dumps(confirm)[:3000]))
                 die2("violation %s of run %s (seed %s) did not reproduce in a fresh process: determinism defect of the harness" % (sig, case.get("index"), case.get("seed")))
@@ -489,6 +500,10 @@ def main():
             if case.get("body") is not None and not a.no_shrink:
                 case, ntested = shrink(bdir, case, sig, outdir, shrink_budget)
             final = run_case(bdir, case, outdir, "confirm1")
+            tries = 1
+            while sig == "race" and tries < 5 and not (final.get("class") == "violation" and final.get("sig") == sig):
+                final = run_case(bdir, case, outdir, "confirm1r%d" % tries)
+                tries += 1
             if not (final.get("class") == "violation" and final.get("sig") == sig):
                 die2("minimised case for %s did not reproduce in a fresh process" % sig)
             case["expect_sig"] = sig
